@@ -10,6 +10,8 @@ def FieldWF (M : Nat) (f : Field) : Prop :=
   | .vector esz align maxc => align ∣ M ∧ maxc * esz < 4294967296
   | .union _ => 1 ≤ f.id
   | .unionVector _ => 1 ≤ f.id
+  | .nestedTable _ align => align ∣ M
+  | .nestedStruct size align => align ∣ M ∧ size < 4294967296
   | _ => True
 
 def MemberWF (M : Nat) : Member → Prop
@@ -54,6 +56,35 @@ def TableSound (S : Schema) (c : Ctx) (fuel : Nat) : Prop :=
   ∀ base offset ttl t, base < 4294967296 → offset < 4294967296 →
     verifyTable S c fuel base offset ttl t = .ok () →
     ∀ fuel' a, a ∈ tableAcc S c fuel' (base + offset) t → Safe c a
+
+/-- the same for every buffer at every address: what a nested buffer needs (it is verified as a buffer of its own) -/
+def TableSoundAll (S : Schema) (M fuel : Nat) : Prop := ∀ c, Placed c M → TableSound S c fuel
+
+/-- an accepted header check is all the placement the soundness proof needs -/
+theorem verifyHeader_placed {c : Ctx} {M id : Nat} (hm4 : 4 ∣ M) (hmp : M ∣ 4294967296)
+    (h : verifyHeader c id = .ok ()) : Placed c M ∧ 8 ≤ c.n := by
+  unfold verifyHeader at h
+  obtain ⟨_, g1, h⟩ := bind_ok h
+  obtain ⟨_, g2, h⟩ := bind_ok h
+  obtain ⟨_, g3, h⟩ := bind_ok h
+  have k1 := guard_ok g1; have k2 := guard_ok g2; have k3 := guard_ok g3
+  simp only [decide_eq_true_eq] at k1 k2 k3
+  exact ⟨⟨hm4, hmp, k1, by omega⟩, k3⟩
+
+theorem r32_sub (c : Ctx) (s len i : Nat) : r32 (sub c s len) i = r32 c (s + i) := by
+  unfold r32 sub
+  simp only [Nat.add_assoc]
+
+/-- a read that is safe inside a nested buffer is safe in the enclosing buffer -/
+theorem safe_shift {c : Ctx} {s len : Nat} (hr : s + len ≤ c.n) {a : Access} (h : Safe (sub c s len) a) :
+    Safe c (shiftAcc s a) := by
+  unfold Safe at h ⊢
+  unfold shiftAcc
+  have h1 : a.addr + a.len ≤ len := h.1
+  have h2 : (c.A + s + a.addr) % a.align = 0 := h.2
+  refine ⟨by show s + a.addr + a.len ≤ c.n; omega, ?_⟩
+  show (c.A + (s + a.addr)) % a.align = 0
+  rw [← Nat.add_assoc]; exact h2
 
 theorem member_sound {c : Ctx} {M : Nat} (P : Placed c M) (S : Schema) (fuel : Nat) (IH : TableSound S c fuel)
     (m : Option Member) (hm : ∀ m', m = some m' → MemberWF M m') (b o : Nat) (ttl : Int)
